@@ -22,12 +22,12 @@ def build_tsdrv(b):
     return out
 
 
-def gen_cfg(name, threads, ncalls, k, forkers):
+def gen_cfg(name, threads, ncalls, k, forkers, minlist=0):
     name = "%s.%d" % (name, os.getpid())               # concurrent runs of this check must not share generated files
     path = os.path.join(c.SPEC, name + ".cfg")
     with open(path, "w") as f:
-        f.write("SPECIFICATION Spec\nCONSTANTS\n  Threads <- %s\n  NCalls = %d\n  Sections <- SecMeasured\n  MaxPreempt = %d\n"
-                "  Forkers <- %s\n  AtFork = \"locked\"\n  Defects <- NoDefects\nINVARIANTS Dump\nCHECK_DEADLOCK FALSE\n" % (threads, ncalls, k, forkers))
+        f.write("SPECIFICATION Spec\nCONSTANTS\n  Threads <- %s\n  NCalls = %d\n  Sections <- SecMeasured\n  MaxPreempt = %d\n  MinListAtFork = %d\n"
+                "  Forkers <- %s\n  AtFork = \"locked\"\n  Defects <- NoDefects\nINVARIANTS Dump\nCHECK_DEADLOCK FALSE\n" % (threads, ncalls, k, minlist, forkers))
     return name + ".cfg"
 
 
@@ -197,7 +197,7 @@ def run_prop(prop, tier, seed):
     seen_sigs = {}
     for plan in plans:
         (tname, nt, nc, k, forkers, cap), sim = plan[:6], (plan[6] if len(plan) > 6 else None)
-        cfg = gen_cfg("TsrmGen_%s_%d_%d_%s" % (tname, nc, k, forkers), tname, nc, k, forkers)
+        cfg = gen_cfg("TsrmGen_%s_%d_%d_%s" % (tname, nc, k, forkers), tname, nc, k, forkers, minlist=(2 if sim and prop == "C10" else 0))
         if sim:
             g = c.run_tlc("TsrmMC.tla", cfg, env={"SECTIONS_FILE": secfile}, heap="8g", timeout=2400, simulate=sim, depth=400, seed=seed, workers=8)
         else:
@@ -210,6 +210,8 @@ def run_prop(prop, tier, seed):
         hists = [json.loads(x) for x in g.printed]
         if sim:
             hists = [json.loads(x) for x in sorted(set(g.printed))]          # random walks repeat themselves
+            if prop == "C10":
+                hists = [h for h in hists if any(st["a"] == "fork" for st in h)]      # MinListAtFork = 2: the fork finds two other threads registered
         if cap and len(hists) > cap:
             rnd.shuffle(hists)
             hists = hists[:cap]
